@@ -99,6 +99,181 @@ namespace c09
         auto tie() const { return std::tie(v, m, s, n); }
     };
 
+    // ---- user types whose reflect() is conditional: decoding does not assign every member, so whatever the
+    // decode target (or a scratch object reused by a container decoder) held before shows through
+    // presence flag + optional block
+    struct Opt
+    {
+        int16_t id = 0; // first in the order, so that in key position "with" and "without" entries interleave
+        uint8_t has = 0;
+        int32_t x = 0;
+        std::string s;
+        template <class R> void reflect(R &r)
+        {
+            r &id;
+            r &has;
+            if (has)
+            {
+                r &x;
+                r &s;
+            }
+        }
+        auto tie() { return std::tie(id, has, x, s); }
+        auto tie() const { return std::tie(id, has, x, s); }
+        bool operator<(const Opt &o) const { return tie() < o.tie(); }
+        static constexpr bool c09_custom = true;
+        static constexpr size_t c09_min_cost = 3;
+        static Opt c09_gen(Gen &g)
+        {
+            Opt o;
+            o.id = gen<int16_t>(g);
+            bool with = g.r.chance(1, 3) ? g.r.chance(1, 2) : (g.alt++ & 1) == 0;
+            g.budget -= 1;
+            o.has = with ? (uint8_t)(1 + g.r.below(255)) : 0;
+            if (with)
+            {
+                o.x = gen<int32_t>(g);
+                if (o.x == 0)
+                    o.x = 77;
+                o.s = gen<std::string>(g);
+                if (o.s.empty())
+                    o.s = "block";
+            }
+            return o;
+        }
+        void c09_ref(std::string &out) const
+        {
+            ref_enc(id, out);
+            ref_enc(has, out);
+            if (has)
+            {
+                ref_enc(x, out);
+                ref_enc(s, out);
+            }
+        }
+    };
+    // tag + one of several members
+    struct Var
+    {
+        uint8_t tag = 0;
+        int16_t i = 0;
+        std::string s;
+        std::vector<uint8_t> v;
+        template <class R> void reflect(R &r)
+        {
+            r &tag;
+            switch (tag)
+            {
+            case 0:
+                r &i;
+                break;
+            case 1:
+                r &s;
+                break;
+            default:
+                r &v;
+            }
+        }
+        auto tie() { return std::tie(tag, i, s, v); }
+        auto tie() const { return std::tie(tag, i, s, v); }
+        bool operator<(const Var &o) const { return tie() < o.tie(); }
+        static constexpr bool c09_custom = true;
+        static constexpr size_t c09_min_cost = 3;
+        static Var c09_gen(Gen &g)
+        {
+            Var a;
+            g.budget -= 1;
+            a.tag = (uint8_t)(g.r.chance(1, 2) ? g.alt++ % 3 : g.r.below(3));
+            if (a.tag == 0)
+                a.i = (int16_t)(gen<int16_t>(g) | 1);
+            else if (a.tag == 1)
+            {
+                a.s = gen<std::string>(g);
+                if (a.s.empty())
+                    a.s = "s";
+            }
+            else
+            {
+                a.v = gen<std::vector<uint8_t>>(g);
+                if (a.v.empty())
+                    a.v.push_back(9);
+            }
+            return a;
+        }
+        void c09_ref(std::string &out) const
+        {
+            ref_enc(tag, out);
+            if (tag == 0)
+                ref_enc(i, out);
+            else if (tag == 1)
+                ref_enc(s, out);
+            else
+                ref_enc(v, out);
+        }
+    };
+    // count + that many members
+    struct Cnt
+    {
+        int16_t id = 0;
+        uint8_t n = 0;
+        int32_t m0 = 0, m1 = 0, m2 = 0;
+        template <class R> void reflect(R &r)
+        {
+            r &id;
+            r &n;
+            if (n > 0)
+                r &m0;
+            if (n > 1)
+                r &m1;
+            if (n > 2)
+                r &m2;
+        }
+        auto tie() { return std::tie(id, n, m0, m1, m2); }
+        auto tie() const { return std::tie(id, n, m0, m1, m2); }
+        bool operator<(const Cnt &o) const { return tie() < o.tie(); }
+        static constexpr bool c09_custom = true;
+        static constexpr size_t c09_min_cost = 3;
+        static Cnt c09_gen(Gen &g)
+        {
+            Cnt c;
+            c.id = gen<int16_t>(g);
+            g.budget -= 1;
+            c.n = (uint8_t)(g.r.chance(1, 2) ? 3 - g.alt++ % 4 : g.r.below(4)); // 3,2,1,0,3,...: a shorter one follows a longer one
+            int32_t *m[3] = {&c.m0, &c.m1, &c.m2};
+            for (int k = 0; k < c.n; k++)
+                *m[k] = gen<int32_t>(g) | 1;
+            return c;
+        }
+        void c09_ref(std::string &out) const
+        {
+            ref_enc(id, out);
+            ref_enc(n, out);
+            if (n > 0)
+                ref_enc(m0, out);
+            if (n > 1)
+                ref_enc(m1, out);
+            if (n > 2)
+                ref_enc(m2, out);
+        }
+    };
+    // conditional types as members, in a vector member and in a map member
+    struct E
+    {
+        Opt o;
+        std::vector<Cnt> cs;
+        std::map<uint8_t, Opt> m;
+        Var v;
+        template <class R> void reflect(R &r)
+        {
+            r &o;
+            r &cs;
+            r &m;
+            r &v;
+        }
+        auto tie() { return std::tie(o, cs, m, v); }
+        auto tie() const { return std::tie(o, cs, m, v); }
+    };
+
     // registration helpers shared by the two old-front-end TUs
     template <class T> void old_golden(const char *name);
 }
